@@ -168,11 +168,13 @@ type evWorld struct {
 	// oracle bookkeeping
 	statusOff bool
 	topoOff   bool
-	exp       map[int]e2eExp // E2E tier: the harness's expectation of the quiesced state (wait condition only)
-	peers0    int            // E2E tier: system.peers queries seen before the last step
-	tracked  map[*gocql.HostInfo]bool // objects reported DOWN by an event and not connected since
-	prevIDs  map[int]bool             // host ids of the ring before the last evrefresh
-	lastRows []evRow                  // rows of the last evrefresh
+	exp       map[int]e2eExp           // E2E tier: the harness's expectation of the quiesced state (wait condition only)
+	peers0    int                      // E2E tier: system.peers queries seen before the last step
+	tracked   map[*gocql.HostInfo]bool // objects reported DOWN by an event and not connected since
+	prevIDs   map[int]bool             // host ids of the ring before the last evrefresh
+	prevObjs  map[*gocql.HostInfo]bool // objects of the ring before the last evrefresh
+	lastRows  []evRow                  // rows of the last evrefresh
+	tokenAw   bool                     // the policy is token aware (its own host list is checked too)
 }
 
 // ---- the property's oracles, evaluated on the real snapshot
@@ -264,12 +266,14 @@ func specReported(rows []evRow) []specHost {
 
 func (e *evWorld) follows() string {
 	sn := e.snap()
-	acc := map[int]specHost{}
+	acc := map[int]specHost{} // accepted reported hosts by id: of a host id reported twice the first row counts
 	var accList []specHost
 	for _, h := range specReported(e.lastRows) {
 		if h.dc != 3 {
-			acc[h.id] = h
-			accList = append(accList, h)
+			if _, dup := acc[h.id]; !dup {
+				acc[h.id] = h
+				accList = append(accList, h)
+			}
 		}
 	}
 	var bad []int
@@ -336,6 +340,8 @@ func (e *evWorld) follows() string {
 	return "violated:" + joinInts(out)
 }
 
+// inPolicy: every object of the ring that was not in the ring before the refresh (a new node, or the new object of a
+// node whose address changed) is in one of the fallback policy's lists and, for a token-aware policy, in its own list
 func (e *evWorld) inPolicy() string {
 	sn := e.snap()
 	fb := map[*gocql.HostInfo]bool{}
@@ -344,11 +350,14 @@ func (e *evWorld) inPolicy() string {
 			fb[h] = true
 		}
 	}
+	ta := map[*gocql.HostInfo]bool{}
+	for _, h := range sn.TA {
+		ta[h] = true
+	}
 	var missing []int
 	for k, h := range sn.RingByID {
-		id := evIDNum(k)
-		if !e.prevIDs[id] && !fb[h] {
-			missing = append(missing, id)
+		if !e.prevObjs[h] && !(fb[h] && (!e.tokenAw || ta[h])) {
+			missing = append(missing, evIDNum(k))
 		}
 	}
 	sort.Ints(missing)
@@ -356,6 +365,37 @@ func (e *evWorld) inPolicy() string {
 		return "ok"
 	}
 	return "missing:" + joinInts(missing)
+}
+
+// noStale: no by-address entry of the ring is stale: every entry leads to a host of the ring with that node address
+func (e *evWorld) noStale() string {
+	sn := e.snap()
+	var bad []int
+	for ipS, id := range sn.RingByIP {
+		h := sn.RingByID[id]
+		stale := h == nil
+		if !stale {
+			na, _, _ := gocql.VerifHostAddrs(h)
+			stale = ipKey(evIPNum(na)) != ipS
+		}
+		if stale {
+			bad = append(bad, evIPNum(net.ParseIP(ipS)))
+		}
+	}
+	sort.Ints(bad)
+	if len(bad) == 0 {
+		return "ok"
+	}
+	return "stale:" + joinInts(bad)
+}
+
+func (e *evWorld) notePrev() {
+	e.prevIDs = map[int]bool{}
+	e.prevObjs = map[*gocql.HostInfo]bool{}
+	for k, h := range e.snap().RingByID {
+		e.prevIDs[evIDNum(k)] = true
+		e.prevObjs[h] = true
+	}
 }
 
 func (e *evWorld) close() {
@@ -577,7 +617,7 @@ func evExec(w *world, f []string) (res string, ok bool) {
 		cfg := gocql.VerifEvConfig{Policy: pol, Filter: evFilter,
 			DisableTopologyEvents: strings.Contains(f[3], "T"), DisableNodeStatusEvents: strings.Contains(f[3], "S")}
 		ne := &evWorld{policy: pol, objs: map[int]*gocql.HostInfo{}, tracked: map[*gocql.HostInfo]bool{}, prevIDs: map[int]bool{},
-			statusOff: strings.Contains(f[3], "S")}
+			prevObjs: map[*gocql.HostInfo]bool{}, statusOff: strings.Contains(f[3], "S"), tokenAw: strings.HasPrefix(f[2], "ta")}
 		if f[1] == "ev" {
 			s, err := gocql.NewVerifEvSession(cfg)
 			if err != nil {
@@ -650,6 +690,8 @@ func evExec(w *world, f []string) (res string, ok bool) {
 		return e.follows(), true
 	case "evinpolicy", "evinpolicyx":
 		return e.inPolicy(), true
+	case "evnostale":
+		return e.noStale(), true
 	case "evup":
 		e.sess.HandleNodeUp(evIP(atoi(f[1])), 9042)
 		return e.answer(""), true
@@ -675,10 +717,7 @@ func evExec(w *world, f []string) (res string, ok bool) {
 			return "bad-op", true
 		}
 		e.cp.Do(func() { e.local, e.peers = rows[0], rows[1:] })
-		e.prevIDs = map[int]bool{}
-		for k := range e.snap().RingByID {
-			e.prevIDs[evIDNum(k)] = true
-		}
+		e.notePrev()
 		e.lastRows = rows
 		return e.answer(refreshClass(e.sess.RefreshRing()) + " "), true
 	case "evrefreshfail":
@@ -708,10 +747,7 @@ func evExec(w *world, f []string) (res string, ok bool) {
 // idStr: the host id string of number n as the session knows it (harness-built "id-n" or row-built uuid)
 func (e *evWorld) idStr(n int) string {
 	if e.cp != nil {
-		if n == 0 {
-			return "00000000-0000-0000-0000-000000000000" // a NULL host_id cell is scanned into the zero UUID
-		}
-		return evUUID(n)
+		return evUUID(n) // "" for 0: a NULL host_id cell leaves the host id empty
 	}
 	return hid(n)
 }
@@ -907,12 +943,6 @@ func (g *evGen) runBatch(b []evEvent) {
 // batch is proved equal to the specification (see Proofs/C16Events.lean), else the name of the
 // violated hypothesis.
 func batchGuard(sn gocql.VerifEvSnap, b []evEvent) string {
-	// no dangling by-address entry
-	for _, id := range sn.RingByIP {
-		if _, ok := sn.RingByID[id]; !ok {
-			return "dangling-index-entry"
-		}
-	}
 	// hosts addressed by the batch have pairwise distinct connect addresses
 	seen := map[string]string{}
 	done := map[int]bool{}
@@ -926,6 +956,9 @@ func batchGuard(sn gocql.VerifEvSnap, b []evEvent) string {
 			continue
 		}
 		h := sn.RingByID[id]
+		if h == nil { // a stale by-address entry (excluded by C16_view_no_stale): the handler is run as it is
+			continue
+		}
 		_, _, ca := gocql.VerifHostAddrs(h)
 		k := ca.String()
 		if _, dup := seen[k]; dup { // two addressed hosts share a connect address, or two addresses lead to one host
@@ -1012,10 +1045,17 @@ func (g *evGen) direct() {
 			g.emit(fmt.Sprintf("evconn %d", 1+r.Intn(nIDs)), "evconn", true)
 		case x < 80:
 			g.emit(fmt.Sprintf("evrm %d", 1+r.Intn(nIDs)), "evrm", true)
-		case x < 92:
+		case x < 89:
 			g.emit(fmt.Sprintf("evadd %d", 1+r.Intn(nObj)), "evadd", true)
+			if !g.dead && r.Intn(3) == 0 {
+				g.emit("evnostale", "evnostale/spec-backed", true)
+			}
 		case x < 95:
+			// ring.addOrUpdate alone (controlConn.setupConn): HostInfo.update may change the stored host's node address
 			g.emit(fmt.Sprintf("evaddu %d", 1+r.Intn(nObj)), "evaddu", true)
+			if !g.dead {
+				g.emit("evnostale", "evnostale/spec-backed", true)
+			}
 		case x < 96:
 			g.emit(fmt.Sprintf("evfail %d", 1+r.Intn(nIDs)), "evfail", true)
 		default:
@@ -1024,6 +1064,9 @@ func (g *evGen) direct() {
 		if !g.dead && len(g.w.ev.tracked) > 0 && r.Intn(3) == 0 {
 			g.emit("evnotoffered", "evnotoffered/spec-backed", true)
 		}
+	}
+	if !g.dead {
+		g.emit("evnostale", "evnostale/spec-backed", true)
 	}
 	if idx := r.Intn(40); !g.dead && idx < 2 {
 		// the event debouncer's buffer: 1000 frames per window
@@ -1065,56 +1108,46 @@ func (m member) row(local bool) evRow {
 	return row
 }
 
-// afterRefresh emits the oracle ops for the refresh just run: spec-backed when the report is within the
-// hypotheses of the theorems (C16_follows_oracle_ok, C16_inpolicy_oracle_ok), else the `…x` variants, classified by
-// the exact excluded condition
+// afterRefresh emits the oracle ops for the refresh just run. `evfollows` is spec-backed for EVERY report
+// (C16_follows_oracle_ok has no hypothesis on the report); `evinpolicy` is spec-backed when no new object shares its
+// connect address with another accepted reported host (the hypothesis OwnConn of C16_new_host_in_policy /
+// C16_inpolicy_oracle_ok: a list keyed by connect address cannot hold both), else the `…x` variant, classified by that
+// condition.
 func (g *evGen) afterRefresh(prior gocql.VerifEvSnap, rows []evRow, ok bool) {
-	guard := ""
-	for i, r := range rows {
-		if i > 0 && r.id == 0 && r.rpc != 0 && r.dc != 0 && r.rack != 0 && r.tok != 0 {
-			guard = "peer-row-with-null-host-id-accepted"
-		}
-	}
-	spec := specReported(rows)
-	seen := map[int]bool{}
-	for _, h := range spec {
-		if h.dc == 3 {
-			continue
-		}
-		if seen[h.id] && guard == "" {
-			guard = "duplicate-host-id-in-report"
-		}
-		seen[h.id] = true
-	}
-	if !ok && guard == "" {
-		guard = "refresh-failed"
-	}
-	if guard == "" {
+	if ok {
 		g.emit("evfollows", "evfollows/spec-backed", true)
 	} else {
-		g.emit("evfollowsx", "evfollowsx/"+guard, true)
+		g.emit("evfollowsx", "evfollowsx/refresh-failed", true)
 	}
-	// every NEW node must use a connect address that neither a host of the prior ring nor another accepted host uses
-	pguard := guard
-	priorIDs := map[int]bool{}
-	priorConn := map[int]bool{}
-	for k, h := range prior.RingByID {
-		priorIDs[evIDNum(k)] = true
-		_, _, ca := gocql.VerifHostAddrs(h)
-		priorConn[evIPNum(ca)] = true
-	}
-	count := map[int]int{}
+	spec := specReported(rows)
+	var acc []specHost
 	for _, h := range spec {
 		if h.dc != 3 {
-			count[h.caddr]++
+			acc = append(acc, h)
 		}
 	}
-	for _, h := range spec {
-		if h.dc == 3 || priorIDs[h.id] {
-			continue
+	priorAt := map[int][2]int{}
+	for k, h := range prior.RingByID {
+		na, cf, _ := gocql.VerifHostAddrs(h)
+		priorAt[evIDNum(k)] = [2]int{evIPNum(na), evIPNum(cf)}
+	}
+	pguard := ""
+	if !ok {
+		pguard = "refresh-failed"
+	}
+	first := map[int]bool{}
+	for i, h := range acc {
+		if first[h.id] {
+			continue // a later row of a host id reported twice: no object of it enters the ring
 		}
-		if (priorConn[h.caddr] || count[h.caddr] > 1) && pguard == "" {
-			pguard = "new-node-on-a-connect-address-in-use"
+		first[h.id] = true
+		if p, had := priorAt[h.id]; had && p == [2]int{h.addr, h.caddr} {
+			continue // the stored object stays
+		}
+		for j, y := range acc {
+			if j != i && y.caddr == h.caddr && pguard == "" {
+				pguard = "new-object-shares-its-connect-address-with-another-accepted-host"
+			}
 		}
 	}
 	if pguard == "" {
@@ -1122,6 +1155,7 @@ func (g *evGen) afterRefresh(prior gocql.VerifEvSnap, rows []evRow, ok bool) {
 	} else {
 		g.emit("evinpolicyx", "evinpolicyx/"+pguard, true)
 	}
+	g.emit("evnostale", "evnostale/spec-backed", true)
 }
 
 func (g *evGen) withControl() {
@@ -1179,27 +1213,53 @@ func (g *evGen) withControl() {
 			// change the topology, then refresh
 			for c := 1 + r.Intn(2); c > 0; c-- {
 				switch y := r.Intn(100); {
-				case y < 25:
+				case y < 20:
 					peers = append(peers, newMember())
 					cls += "/new-node"
-				case y < 45 && len(peers) > 0:
+				case y < 36 && len(peers) > 0:
 					i := r.Intn(len(peers))
 					peers = append(peers[:i], peers[i+1:]...)
 					cls += "/removed-node"
-				case y < 55 && len(peers) > 0:
+				case y < 44 && len(peers) > 0:
 					i := r.Intn(len(peers))
 					peers[i].addr, peers[i].rpc = nextAddr, nextAddr
 					nextAddr++
 					cls += "/address-change"
+				case y < 49 && len(peers) > 1:
+					// two nodes exchange their addresses
+					i := r.Intn(len(peers))
+					j := (i + 1 + r.Intn(len(peers)-1)) % len(peers)
+					peers[i].addr, peers[j].addr = peers[j].addr, peers[i].addr
+					peers[i].rpc, peers[j].rpc = peers[j].rpc, peers[i].rpc
+					cls += "/swapped-addresses"
+				case y < 55 && len(peers) > 0:
+					// a node moves to a new address and a NEW node appears on the address it left, in one report
+					// (the new node's row before or after the moved node's)
+					i := r.Intn(len(peers))
+					m := newMember()
+					m.addr, m.rpc = peers[i].addr, peers[i].rpc
+					peers[i].addr, peers[i].rpc = nextAddr, nextAddr
+					nextAddr++
+					if r.Bool() {
+						peers = append(peers, m)
+					} else {
+						peers = append([]member{m}, peers...)
+					}
+					cls += "/moved-node+new-node-on-the-vacated-address"
 				case y < 62 && len(peers) > 0:
 					i := r.Intn(len(peers))
 					peers[i].id = nextID // replaced node: new host id on the same address
 					nextID++
 					cls += "/replaced-node"
-				case y < 78 && len(peers) > 0:
+				case y < 74 && len(peers) > 0:
 					i := r.Intn(len(peers))
 					peers[i].defect = []string{"norack", "nodc", "noid", "notok", "norpc", "rpc0"}[r.Intn(6)]
 					cls += "/invalid-row-" + peers[i].defect
+				case y < 78 && len(peers) > 0:
+					// the node is reported in another data centre: it becomes rejected by the host filter (dc3), or accepted
+					i := r.Intn(len(peers))
+					peers[i].dc = 1 + (peers[i].dc+r.Intn(2))%3
+					cls += fmt.Sprintf("/data-centre-change-to-dc%d", peers[i].dc)
 				case y < 84 && len(peers) > 0:
 					i := r.Intn(len(peers))
 					peers[i].defect = ""
